@@ -625,6 +625,9 @@ class Decoder:
 
             if data[0] & 0x80:
                 name = decode_huffman(name)
+            else:
+                # Copy: ``name`` is a view into the caller's buffer.
+                name = bytes(name)
             total_consumed = consumed + length + 1  # Since we moved forward 1.
 
         data = data[consumed + length:]
@@ -638,6 +641,9 @@ class Decoder:
 
         if data[0] & 0x80:
             value = decode_huffman(value)
+        else:
+            # Copy: ``value`` is a view into the caller's buffer.
+            value = bytes(value)
 
         # Updated the total consumed length.
         total_consumed += length + consumed
